@@ -891,6 +891,12 @@ def value_attr(I, obj, name):
             return Builtin(name, lambda *sh: e)
         if name == "shape":
             return ()
+        if name == "size":
+            return sp.Integer(1)          # a 0-d array / numpy scalar
+        if name == "ndim":
+            return sp.Integer(0)
+        if name in ("item", "tolist"):
+            return Builtin(name, lambda *a: e)
         if name in ("numerator", "denominator") and e.is_Rational:
             return sp.Integer(e.p if name == "numerator" else e.q)
         if name == "is_integer":
@@ -1188,6 +1194,15 @@ def value_attr(I, obj, name):
             return sp.Integer(len(_vflat(obj)))
         if name == "ndim":
             return sp.Integer(len(_vshape(obj)))
+        if name == "item":
+            def item(*a):
+                fl_ = _vflat(obj)
+                if a:
+                    return fl_[concrete_int(a[0])]
+                if len(fl_) != 1:
+                    raise SymRaise("ValueError", "can only convert an array of size 1 to a Python scalar")
+                return fl_[0]
+            return Builtin(name, item)
         if name == "tolist":
             def tolist(v=obj):
                 return [tolist(x) if isinstance(x, Vec) else x for x in v.items]
@@ -2171,6 +2186,17 @@ def _as_dtype(I, v, dtype, copy):
             return Vec(items, x.col)
         if x is None and kind == "float":
             return sp.nan               # numpy stores None as NaN in a float array
+        if isinstance(x, str) and kind in ("float", "int"):
+            # numpy parses text cells when a numeric dtype is asked for
+            try:
+                v_ = float(x) if kind == "float" else int(x)
+            except ValueError:
+                raise SymRaise("ValueError", f"could not convert string to {kind}: {x!r}")
+            if v_ != v_:
+                return sp.nan
+            if v_ in (float("inf"), float("-inf")):
+                return sp.oo if v_ > 0 else -sp.oo
+            return sp.Rational(x.strip()) if kind == "float" and "e" not in x.lower() and "_" not in x else sp.nsimplify(v_, rational=True) if kind == "float" else sp.Integer(v_)
         if kind == "bool":
             if isinstance(x, bool) or x in (sp.true, sp.false):
                 return bool(x)
